@@ -238,3 +238,57 @@ Theorem C07_fresh_search_is_starting_at_for_spec_search :
       Iter.find_runes_match_starting_at rtl (tlen e) (cx_spec_matcher e fuel root) lfuel pos.
 Proof. exact cit_fresh_search_is_starting_at. Qed.
 Print Assumptions C07_fresh_search_is_starting_at_for_spec_search.
+
+(* ---------------- ... with the termination hypothesis discharged (Proofs/SpecTermProofs.v, Proofs/ComposeTerm.v) ----
+   The last hypothesis of the three compiled-program theorems above ("Spec.attempt terminates within the engine's
+   counter range at every in-range position, for every \G") is a theorem for trees with one-directional loop
+   bodies: two decidable conditions on the instance replace it,
+     term_ok root = true   and   Z.of_nat (term_fuel e root) <= INF
+   (term_fuel e root = 1 + nesting depth, loops add minimum count + text length + 2). *)
+From Verif Require Import Proofs.SpecTermProofs Proofs.ComposeTerm.
+
+Theorem C07_compiled_matcher_is_forward_terminating :
+  forall (e : env) (p : program) (rtl : bool), 0 <= trackcount p -> tlen e <= INF ->
+  forall L vfuel o body,
+  let root := NCapture o 0 (-1) body in
+  codes p = fst (compile cfg0 root) -> strings p = snd (compile cfg0 root) ->
+  supported2 root = true -> groups_ok2 (capsize p) root ->
+  shape_ok rtl root = true -> no_group0 body ->
+  term_ok root = true -> Z.of_nat (term_fuel e root) <= INF ->
+  forward rtl (tlen e) (cx_vm_matcher e p L vfuel).
+Proof. exact ct_vm_forward. Qed.
+Print Assumptions C07_compiled_matcher_is_forward_terminating.
+
+Theorem C07_iteration_for_compiled_programs_terminating :
+  forall (e : env) (p : program) (rtl : bool), 0 <= trackcount p -> tlen e <= INF ->
+  forall L vfuel o body,
+  let root := NCapture o 0 (-1) body in
+  codes p = fst (compile cfg0 root) -> strings p = snd (compile cfg0 root) ->
+  supported2 root = true -> groups_ok2 (capsize p) root ->
+  shape_ok rtl root = true -> no_group0 body ->
+  term_ok root = true -> Z.of_nat (term_fuel e root) <= INF ->
+  forall start, 0 <= start <= tlen e ->
+  exists ms, Iter.iteration rtl (tlen e) (cx_vm_matcher e p L vfuel)
+               (Iter.dflt_fuel (tlen e)) (Iter.dflt_fuel (tlen e)) start = Ok ms /\
+             Z.of_nat (length ms) <= tlen e + 1 /\
+             Forall (wfm rtl (tlen e)) ms /\
+             forall a b, consecutive ms a b -> follows rtl a b.
+Proof. exact ct_iteration_for_compiled_programs. Qed.
+Print Assumptions C07_iteration_for_compiled_programs_terminating.
+
+Theorem C07_next_advances_for_compiled_programs_terminating :
+  forall (e : env) (p : program) (rtl : bool), 0 <= trackcount p -> tlen e <= INF ->
+  forall L vfuel o body,
+  let root := NCapture o 0 (-1) body in
+  codes p = fst (compile cfg0 root) -> strings p = snd (compile cfg0 root) ->
+  supported2 root = true -> groups_ok2 (capsize p) root ->
+  shape_ok rtl root = true -> no_group0 body ->
+  term_ok root = true -> Z.of_nat (term_fuel e root) <= INF ->
+  forall m, wfm rtl (tlen e) m ->
+  exists r, Iter.find_next_match rtl (tlen e) (cx_vm_matcher e p L vfuel) (Iter.dflt_fuel (tlen e)) m = Ok r /\
+            forall m', r = Some m' -> wfm rtl (tlen e) m' /\ follows rtl m m'.
+Proof. exact ct_next_advances_for_compiled_programs. Qed.
+Print Assumptions C07_next_advances_for_compiled_programs_terminating.
+
+(* non-vacuity: the a^n b^n program of C07_compiled_witness is term_ok with reference fuel 10 *)
+Example C07_terminating_witness := ct_demo.
